@@ -177,8 +177,8 @@ class ShaclSerializer(object):
         r_constraint_node = self._generate_bnode()
         self._add_bnode_property(r_shape_uri=r_shape_uri,
                                  r_constraint_node=r_constraint_node)
-        self._add_direct_path(statement=statement,
-                              r_constraint_node=r_constraint_node)
+        self._add_path(statement=statement,  # the instantiation property may be an incoming link too (inverse_paths)
+                       r_constraint_node=r_constraint_node)
         self._add_cardinality(statement=statement,
                               r_constraint_node=r_constraint_node)
         self._add_in_instance(statement=statement,
